@@ -836,19 +836,22 @@ type pathQ struct {
 // blocked edge and without executing a kill instruction first. It returns the target found.
 func (q *pathQ) reach(b *ssa.BasicBlock, idx int) (ssa.Instruction, []*ssa.BasicBlock) {
 	type item struct {
-		b    *ssa.BasicBlock
-		idx  int
-		prev int
-		only int // -1: both successors feasible; 0/1: only that successor (phi-of-constant condition)
+		b     *ssa.BasicBlock
+		idx   int
+		prev  int
+		only  int    // -1: both successors feasible; 0/1: only that successor (phi-of-constant condition)
+		facts string // decided values of conditions that are branched on more than once (see condFacts)
 	}
 	type vkey struct {
-		b    *ssa.BasicBlock
-		only int
+		b     *ssa.BasicBlock
+		only  int
+		facts string
 	}
+	rep := repeatedConds(b.Parent())
 	visited := map[vkey]bool{}
-	queue := []item{{b, idx, -1, -1}}
+	queue := []item{{b, idx, -1, -1, ""}}
 	if idx == 0 {
-		visited[vkey{b, -1}] = true
+		visited[vkey{b, -1, ""}] = true
 	}
 	for qi := 0; qi < len(queue); qi++ {
 		it := queue[qi]
@@ -881,15 +884,123 @@ func (q *pathQ) reach(b *ssa.BasicBlock, idx int) (ssa.Instruction, []*ssa.Basic
 			if q.blocked != nil && q.blocked(Edge{it.b, si}) {
 				continue
 			}
+			facts := it.facts
+			if len(rep) > 0 {
+				var feasible bool
+				facts, feasible = condFacts(rep, it.facts, it.b, si, s)
+				if !feasible {
+					continue // the same condition was decided the other way earlier on this path
+				}
+			}
 			only := phiConstSucc(it.b, s)
-			k := vkey{s, only}
-			if !visited[k] && !visited[vkey{s, -1}] {
+			k := vkey{s, only, facts}
+			if !visited[k] && !visited[vkey{s, -1, ""}] && !visited[vkey{s, only, ""}] {
 				visited[k] = true
-				queue = append(queue, item{s, 0, qi, only})
+				queue = append(queue, item{s, 0, qi, only, facts})
 			}
 		}
 	}
 	return nil, nil
+}
+
+// repeatedConds: the condition values (negations stripped) that more than one If of f branches on — e.g. a
+// boolean local tested twice (`if eof && n > 0 {…}; if eof {…}`). Only these are tracked along paths.
+func repeatedConds(f *ssa.Function) map[ssa.Value]int {
+	if f == nil {
+		return nil
+	}
+	cnt := map[ssa.Value]int{}
+	for _, b := range f.Blocks {
+		if len(b.Instrs) == 0 {
+			continue
+		}
+		if ifi, ok := b.Instrs[len(b.Instrs)-1].(*ssa.If); ok {
+			v, _ := stripNot(ifi.Cond)
+			if _, isConst := v.(*ssa.Const); !isConst {
+				cnt[v]++
+			}
+		}
+	}
+	out := map[ssa.Value]int{}
+	id := 0
+	for _, b := range f.Blocks { // deterministic numbering
+		if len(b.Instrs) == 0 {
+			continue
+		}
+		if ifi, ok := b.Instrs[len(b.Instrs)-1].(*ssa.If); ok {
+			v, _ := stripNot(ifi.Cond)
+			if cnt[v] > 1 {
+				if _, seen := out[v]; !seen {
+					id++
+					out[v] = id
+				}
+			}
+		}
+	}
+	return out
+}
+
+func stripNot(v ssa.Value) (ssa.Value, bool) {
+	neg := false
+	for {
+		u, ok := v.(*ssa.UnOp)
+		if !ok || u.Op != token.NOT {
+			return v, neg
+		}
+		neg = !neg
+		v = u.X
+	}
+}
+
+// condFacts updates the facts when the edge from→(succ si) is taken into block to: a tracked condition
+// decided on this edge is recorded (or the edge is infeasible if it was decided the other way), and facts
+// about values that block `to` recomputes (loop) are dropped. Facts are encoded "id=T;id=F" in id order.
+func condFacts(rep map[ssa.Value]int, facts string, from *ssa.BasicBlock, si int, to *ssa.BasicBlock) (string, bool) {
+	m := map[int]bool{}
+	if facts != "" {
+		for _, kv := range strings.Split(facts, ";") {
+			var id int
+			var t string
+			fmt.Sscanf(strings.Replace(kv, "=", " ", 1), "%d %s", &id, &t)
+			m[id] = t == "T"
+		}
+	}
+	if ifi, ok := from.Instrs[len(from.Instrs)-1].(*ssa.If); ok && len(from.Succs) == 2 && from.Succs[0] != from.Succs[1] {
+		v, neg := stripNot(ifi.Cond)
+		if id, tracked := rep[v]; tracked {
+			truth := (si == 0) != neg
+			if old, known := m[id]; known && old != truth {
+				return facts, false
+			}
+			m[id] = truth
+		}
+	}
+	// values defined in `to` are recomputed when it is entered
+	for v, id := range rep {
+		if in, ok := v.(ssa.Instruction); ok && in.Block() == to {
+			delete(m, id)
+		}
+	}
+	if len(m) == 0 {
+		return "", true
+	}
+	ids := make([]int, 0, len(m))
+	for id := range m {
+		ids = append(ids, id)
+	}
+	sort.Ints(ids)
+	var sb strings.Builder
+	for i, id := range ids {
+		if i > 0 {
+			sb.WriteByte(';')
+		}
+		t := "F"
+		if m[id] {
+			t = "T"
+		}
+		fmt.Fprintf(&sb, "%d=%s", id, t)
+	}
+	return sb.String(), true
 }
 
 // phiConstSucc: entering block s from pred p, if s branches on a phi (boolean, or compared with nil)
